@@ -41,6 +41,21 @@ Prog == [fi \in 1..Len(Funcs) |-> [k \in 1..Len(Funcs[fi].code) |-> Decode(Funcs
 CodeLen(fi) == Len(Funcs[fi].code)
 IsModuleFn(fi) == Funcs[fi].name = "__module__"
 
+(* Interprocedural layer (second pass of ExploreVM).  The first pass records, per function, *)
+(* the operand-depth interval of every state in which the activation ends (`ret`, or falling *)
+(* off the end = no value); the harness copies those records into the dump as field `rets`  *)
+(* and the second pass reads them here.  A caller's `store` / `bin_op` after a call needs    *)
+(* exactly one value, a statement call none: a function whose paths certainly end with a    *)
+(* value on one path and certainly without on another breaks the operand shape at whatever   *)
+(* call site reaches it (ReturnArityUniform).  `call_self` is the one call whose callee is    *)
+(* known statically; its result count is the function's own summary (paths that end with the  *)
+(* result of another call are no evidence either way: least fixed point).                    *)
+Rets(fi) == IF "rets" \in DOMAIN Funcs[fi] THEN Funcs[fi].rets ELSE <<>>
+Certain0(fi) == \E k \in 1..Len(Rets(fi)) : Rets(fi)[k].hi = 0
+Certain1(fi) == \E k \in 1..Len(Rets(fi)) : Rets(fi)[k].lo >= 1
+SelfLo(fi) == IF Certain1(fi) /\ ~Certain0(fi) THEN 1 ELSE 0
+SelfHi(fi) == IF Certain0(fi) /\ ~Certain1(fi) THEN 0 ELSE 1
+
 -----------------------------------------------------------------------------
 (* abstract state of one activation *)
 (* `special_scopes` (function.rs) is pushed by every PushScope and popped only by `done`, never *)
@@ -127,6 +142,7 @@ Violations(fi, s) ==
     THEN (IF Len(s.fr) # 0 THEN {"FallsOffEndWithOpenFrames"} ELSE {})
     ELSE LET i == At(fi, s) IN
       (IF i.op \notin KnownOps THEN {"UnknownOrNopInstruction"} ELSE {})
+      \cup (IF s = Entry /\ Certain0(fi) /\ Certain1(fi) THEN {"ReturnArityUniform"} ELSE {})
       \cup (IF ~JumpArgOk(fi, s) THEN {"JumpArgument"} ELSE {})
       \cup (IF JumpArgOk(fi, s) /\ \E t \in JumpTargets(fi, s) : ~InRange(fi, t) THEN {"JumpInRange"} ELSE {})
       \cup (IF ~ShapeOk(fi, s) THEN {"OperandShape"} ELSE {})
@@ -178,7 +194,8 @@ Succ(fi, s0) ==
       [] i.op \in {"store", "store_fast", "store_object", "export_special", "assert"} -> {Adv(SetDepth(s, 0, 0))}
       [] i.op = "lookup" -> {Adv(SetDepth(s, 1, 1))}
       [] i.op \in {"equ", "neq", "mutate"} -> {Adv(SetDepth(s, 1, 1))}
-      [] i.op \in {"call", "call_self", "call_object", "call_lib"} -> {Adv(SetDepth(s, 0, 1))}
+      [] i.op \in {"call", "call_object", "call_lib"} -> {Adv(SetDepth(s, 0, 1))}
+      [] i.op = "call_self" -> {Adv(SetDepth(s, SelfLo(fi), SelfHi(fi)))}
       [] i.op = "module_entry" -> {Adv(SetDepth(s, 1, 1))}
       [] i.op = "ret" -> {[PopFrames(s, Len(s.fr)) EXCEPT !.st = "ret"]}
       [] i.op = "ret_mod" -> {[PopFrames(s, Len(s.fr)) EXCEPT !.st = "ret"]}
